@@ -220,34 +220,36 @@ theorem interval_roundtrip_hyper (pi : ℝ) (t : IT ℝ) (hh : t.hyper = true) (
       t'.scale = t.scale ∧ t'.lo = t.lo ∧ t'.hi = t.hi ∧ t'.hyper = t.hyper := by
   rw [IT.setOriginal_real, if_neg (not_or.mpr ⟨not_le.mpr h1, not_le.mpr h2⟩)]
   refine ⟨_, rfl, ?_, rfl, rfl, rfl, rfl⟩
-  rw [IT.getOriginal_real]
-  simp only [hh, if_true]
-  rw [IT.fwd_hyper_real _ _ _ _ _ h1 h2, mul_div_cancel_left₀ _ hs, Real.tanh_artanh (IT.u_mem h1 h2)]
-  have : t.hi - t.lo ≠ 0 := by linarith
-  field_simp
-  ring
+  have hb : t.lo < t.hi := lt_trans h1 h2
+  have := IT.getOriginal_at_hyper pi t hh hb (IT.fwd pi t.scale t.lo t.hi t.hyper v)
+  rw [show ({ t with x := IT.fwd pi t.scale t.lo t.hi t.hyper v } : IT ℝ)
+    = t.at (IT.fwd pi t.scale t.lo t.hi t.hyper v) from rfl, this, hh,
+    IT.fwd_hyper_real _ _ _ _ _ h1 h2]
+  exact IT.gh_fwd hs h1 h2
 
 /-- transformed → original → transformed is the identity -/
 theorem interval_roundtrip_hyper_coord (pi : ℝ) (t : IT ℝ) (hh : t.hyper = true) (hs : t.scale ≠ 0)
     (hb : t.lo < t.hi) : IT.setOriginal pi t (IT.getOriginal pi t) = some t := by
   have hg : IT.getOriginal pi t = IT.gh t.scale t.lo t.hi t.x := by
-    have := IT.getOriginal_at pi t t.x; simpa [hh] using this
+    have := IT.getOriginal_at_hyper pi t hh hb t.x; simpa using this
   have ⟨m1, m2⟩ := IT.gh_mem t.scale t.lo t.hi t.x hb
   rw [hg, IT.setOriginal_real, if_neg (not_or.mpr ⟨not_le.mpr m1, not_le.mpr m2⟩)]
   have hf : IT.fwd pi t.scale t.lo t.hi t.hyper (IT.gh t.scale t.lo t.hi t.x) = t.x := by
-    rw [hh, IT.fwd_hyper_real _ _ _ _ _ m1 m2]
-    have hw : t.hi - t.lo ≠ 0 := by linarith
-    have : 2 * (IT.gh t.scale t.lo t.hi t.x - t.lo) / (t.hi - t.lo) - 1 = Real.tanh (t.x / t.scale) := by
-      unfold IT.gh; field_simp; ring
-    rw [this, Real.artanh_tanh, mul_div_cancel₀ _ hs]
+    rw [hh, IT.fwd_hyper_real _ _ _ _ _ m1 m2]; exact IT.fwd_gh hs hb
   rw [hf]
 
 /-- every real coordinate back-transforms strictly inside the interval (whatever the scale) -/
 theorem interval_back_in_domain_hyper (pi : ℝ) (t : IT ℝ) (hh : t.hyper = true) (hb : t.lo < t.hi) :
     t.lo < IT.getOriginal pi t ∧ IT.getOriginal pi t < t.hi := by
   have hg : IT.getOriginal pi t = IT.gh t.scale t.lo t.hi t.x := by
-    have := IT.getOriginal_at pi t t.x; simpa [hh] using this
+    have := IT.getOriginal_at_hyper pi t hh hb t.x; simpa using this
   rw [hg]; exact IT.gh_mem _ _ _ _ hb
+
+/-- whatever the variant, the constant used for π and the coordinate, the back-transformed value is
+in the *closed* interval (this is what the final clamp of `getOriginalValue` gives) -/
+theorem interval_back_in_closed_domain (pi : ℝ) (t : IT ℝ) (hb : t.lo ≤ t.hi) :
+    t.lo ≤ IT.getOriginal pi t ∧ IT.getOriginal pi t ≤ t.hi := by
+  rw [IT.getOriginal_real]; exact IT.clamp_mem hb _
 
 /-! ## Interval transform, tangent variant.  `pi` is the constant the code uses for π -/
 
@@ -259,22 +261,19 @@ theorem interval_roundtrip_tan (pi : ℝ) (hpi : 0 < pi) (hle : pi ≤ Real.pi) 
       t'.scale = t.scale ∧ t'.lo = t.lo ∧ t'.hi = t.hi ∧ t'.hyper = t.hyper := by
   rw [IT.setOriginal_real, if_neg (not_or.mpr ⟨not_le.mpr h1, not_le.mpr h2⟩)]
   refine ⟨_, rfl, ?_, rfl, rfl, rfl, rfl⟩
-  rw [IT.getOriginal_real]
-  simp only [hh, if_false, Bool.false_eq_true]
-  rw [IT.fwd_tan_real, mul_div_cancel_left₀ _ hs]
-  have hw : 0 < t.hi - t.lo := by linarith
-  -- the angle is in ]-pi/2, pi/2[ ⊆ ]-π/2, π/2[
-  have hu := IT.u_mem h1 h2
-  have ha : pi * (v - t.lo) / (t.hi - t.lo) - pi / 2 = pi / 2 * (2 * (v - t.lo) / (t.hi - t.lo) - 1) := by
-    field_simp
-  have hlo : -(Real.pi / 2) < pi * (v - t.lo) / (t.hi - t.lo) - pi / 2 := by
-    rw [ha]; nlinarith [hu.1, hu.2]
-  have hhi : pi * (v - t.lo) / (t.hi - t.lo) - pi / 2 < Real.pi / 2 := by
-    rw [ha]; nlinarith [hu.1, hu.2]
-  rw [Real.arctan_tan hlo hhi]
-  have : t.hi - t.lo ≠ 0 := hw.ne'
-  field_simp
-  ring
+  have hb : t.lo < t.hi := lt_trans h1 h2
+  have hf : IT.fwd pi t.scale t.lo t.hi t.hyper v
+      = t.scale * Real.tan (pi * (v - t.lo) / (t.hi - t.lo) - pi / 2) := by
+    rw [hh, IT.fwd_tan_real]
+  -- the angle guard holds at the coordinate the forward map produces
+  have ha : |Real.arctan (IT.fwd pi t.scale t.lo t.hi t.hyper v / t.scale)| < pi / 2 := by
+    rw [hf, mul_div_cancel_left₀ _ hs, IT.arctan_tan_angle hpi hle h1 h2, abs_lt]
+    have ⟨a1, a2⟩ := IT.angle_mem hpi h1 h2
+    exact ⟨a1, a2⟩
+  have := IT.getOriginal_at_tan pi t hh hb hpi (IT.fwd pi t.scale t.lo t.hi t.hyper v) ha
+  rw [show ({ t with x := IT.fwd pi t.scale t.lo t.hi t.hyper v } : IT ℝ)
+    = t.at (IT.fwd pi t.scale t.lo t.hi t.hyper v) from rfl, this, hf]
+  exact IT.gt_fwd hpi hle hs h1 h2
 
 /-- with the exact π -/
 theorem interval_roundtrip_tan_exact (t : IT ℝ) (hh : t.hyper = false) (hs : t.scale ≠ 0)
@@ -297,6 +296,7 @@ theorem interval_roundtrip_tan_fails_of_gt (pi : ℝ) (hgt : Real.pi < pi) (hlt 
     (t : IT ℝ) (hh : t.hyper = false) (hs : t.scale ≠ 0) (hb : t.lo < t.hi) :
     ∃ v t', t.lo < v ∧ v < t.hi ∧ IT.setOriginal pi t v = some t' ∧ IT.getOriginal pi t' ≠ v := by
   have hpi := Real.pi_pos
+  have hppos : 0 < pi := by linarith
   have hw : 0 < t.hi - t.lo := by linarith
   -- choose the angle θ = (π/2 + pi/2)/2 ∈ ]π/2, pi/2[ ; v = lo + (θ + pi/2)/pi * (hi - lo)
   set θ : ℝ := (Real.pi / 2 + pi / 2) / 2 with hθ
@@ -307,18 +307,21 @@ theorem interval_roundtrip_tan_fails_of_gt (pi : ℝ) (hgt : Real.pi < pi) (hlt 
   have hfrac2 : (θ + pi / 2) / pi < 1 := by rw [div_lt_one (by linarith)]; linarith
   have h1 : t.lo < v := by rw [hv]; nlinarith
   have h2 : v < t.hi := by rw [hv]; nlinarith
-  refine ⟨v, { t with x := IT.fwd pi t.scale t.lo t.hi t.hyper v }, h1, h2, ?_, ?_⟩
-  · rw [IT.setOriginal_real, if_neg (not_or.mpr ⟨not_le.mpr h1, not_le.mpr h2⟩)]
-  · rw [IT.getOriginal_real]
-    simp only [hh, if_false, Bool.false_eq_true]
-    rw [IT.fwd_tan_real, mul_div_cancel_left₀ _ hs]
-    have ha : pi * (v - t.lo) / (t.hi - t.lo) - pi / 2 = θ := by
+  refine ⟨v, t.at (IT.fwd pi t.scale t.lo t.hi t.hyper v), h1, h2, ?_, ?_⟩
+  · rw [IT.setOriginal_real, if_neg (not_or.mpr ⟨not_le.mpr h1, not_le.mpr h2⟩)]; rfl
+  · have ha : pi * (v - t.lo) / (t.hi - t.lo) - pi / 2 = θ := by
       rw [hv]; have : t.hi - t.lo ≠ 0 := hw.ne'; have : pi ≠ 0 := by linarith
       field_simp; ring
-    rw [ha]
+    have hf : IT.fwd pi t.scale t.lo t.hi t.hyper v = t.scale * Real.tan θ := by
+      rw [hh, IT.fwd_tan_real, ha]
     -- tan θ = tan (θ - π) and θ - π ∈ ]-π/2, π/2[
-    have hper : Real.tan θ = Real.tan (θ - Real.pi) := (Real.tan_sub_pi θ).symm
-    rw [hper, Real.arctan_tan (by linarith) (by linarith)]
+    have hat : Real.arctan (t.scale * Real.tan θ / t.scale) = θ - Real.pi := by
+      rw [mul_div_cancel_left₀ _ hs, ← Real.tan_sub_pi θ, Real.arctan_tan (by linarith) (by linarith)]
+    have hguard : |Real.arctan (t.scale * Real.tan θ / t.scale)| < pi / 2 := by
+      rw [hat, abs_lt]; constructor <;> linarith
+    rw [hf, IT.getOriginal_at_tan pi t hh hb hppos _ hguard]
+    unfold IT.gt
+    rw [hat]
     intro hcontra
     have hne : pi ≠ 0 := by linarith
     have e : (θ - Real.pi + pi / 2) * (t.hi - t.lo) / pi + t.lo = v - Real.pi * (t.hi - t.lo) / pi := by
@@ -327,43 +330,28 @@ theorem interval_roundtrip_tan_fails_of_gt (pi : ℝ) (hgt : Real.pi < pi) (hlt 
     have : 0 < Real.pi * (t.hi - t.lo) / pi := div_pos (mul_pos hpi hw) (by linarith)
     linarith
 
-/-- transformed → original → transformed, under the guard that keeps the back-transformed value
-inside the interval (automatic when `π ≤ pi`, see `interval_back_in_domain_tan`) -/
+/-- transformed → original → transformed, under the angle guard that keeps the back-transformed
+value strictly inside the interval (automatic when `π ≤ pi`; see
+`interval_back_in_domain_tan_lib_partial` for the library's constant) -/
 theorem interval_roundtrip_tan_coord (pi : ℝ) (hpi : 0 < pi) (t : IT ℝ) (hh : t.hyper = false)
     (hs : t.scale ≠ 0) (hb : t.lo < t.hi) (ha : |Real.arctan (t.x / t.scale)| < pi / 2) :
     IT.setOriginal pi t (IT.getOriginal pi t) = some t := by
   have hg : IT.getOriginal pi t = IT.gt pi t.scale t.lo t.hi t.x := by
-    have := IT.getOriginal_at pi t t.x; simpa [hh] using this
+    have := IT.getOriginal_at_tan pi t hh hb hpi t.x ha; simpa using this
   have ⟨m1, m2⟩ := IT.gt_mem_of_angle pi t.scale t.lo t.hi t.x hpi hb ha
   rw [hg, IT.setOriginal_real, if_neg (not_or.mpr ⟨not_le.mpr m1, not_le.mpr m2⟩)]
   have hf : IT.fwd pi t.scale t.lo t.hi t.hyper (IT.gt pi t.scale t.lo t.hi t.x) = t.x := by
-    rw [hh, IT.fwd_tan_real]
-    have hw : t.hi - t.lo ≠ 0 := by linarith
-    have : pi * (IT.gt pi t.scale t.lo t.hi t.x - t.lo) / (t.hi - t.lo) - pi / 2
-        = Real.arctan (t.x / t.scale) := by
-      unfold IT.gt; field_simp; ring
-    rw [this, Real.tan_arctan, mul_div_cancel₀ _ hs]
+    rw [hh, IT.fwd_tan_real]; exact IT.fwd_gt hpi hs hb
   rw [hf]
 
-/-- for every constant `pi > 0` and every real coordinate the back-transformed value is within
-`(π - pi)/(2 pi)` interval widths of the interval; in particular strictly inside when `π ≤ pi` -/
-theorem interval_back_in_domain_tan_general (pi : ℝ) (hpi : 0 < pi) (t : IT ℝ) (hh : t.hyper = false)
-    (hb : t.lo < t.hi) :
-    t.lo - (Real.pi - pi) / (2 * pi) * (t.hi - t.lo) < IT.getOriginal pi t ∧
-    IT.getOriginal pi t < t.hi + (Real.pi - pi) / (2 * pi) * (t.hi - t.lo) := by
-  have hg : IT.getOriginal pi t = IT.gt pi t.scale t.lo t.hi t.x := by
-    have := IT.getOriginal_at pi t t.x; simpa [hh] using this
-  rw [hg]; exact IT.gt_mem pi _ _ _ _ hpi hb
-
+/-- strictly inside the interval for every real coordinate when the constant is at least π -/
 theorem interval_back_in_domain_tan (pi : ℝ) (hpi : Real.pi ≤ pi) (t : IT ℝ) (hh : t.hyper = false)
     (hb : t.lo < t.hi) : t.lo < IT.getOriginal pi t ∧ IT.getOriginal pi t < t.hi := by
   have hp : 0 < pi := lt_of_lt_of_le Real.pi_pos hpi
-  have ⟨h1, h2⟩ := interval_back_in_domain_tan_general pi hp t hh hb
-  have hw : 0 < t.hi - t.lo := by linarith
-  have : (Real.pi - pi) / (2 * pi) * (t.hi - t.lo) ≤ 0 := by
-    apply mul_nonpos_of_nonpos_of_nonneg _ hw.le
-    apply div_nonpos_of_nonpos_of_nonneg <;> linarith
-  constructor <;> linarith
+  have ha := IT.arctan_abs_lt_of_pi_le hpi (t.x / t.scale)
+  have hg : IT.getOriginal pi t = IT.gt pi t.scale t.lo t.hi t.x := by
+    have := IT.getOriginal_at_tan pi t hh hb hp t.x ha; simpa using this
+  rw [hg]; exact IT.gt_mem_of_angle pi _ _ _ _ hp hb ha
 
 /-- with the exact π -/
 theorem interval_back_in_domain_tan_exact (t : IT ℝ) (hh : t.hyper = false) (hb : t.lo < t.hi) :
@@ -373,21 +361,22 @@ theorem interval_back_in_domain_tan_exact (t : IT ℝ) (hh : t.hyper = false) (h
 /-- the library's constant is (slightly) smaller than π, so `interval_back_in_domain_tan` does not
 apply; what holds is the guarded form: the back-transformed value is strictly inside as long as
 `|x / scale| ≤ 10^15` (the property's region is `|x / scale| ≤ 300`).  Missing for the full
-statement: coordinates beyond `tan (PI()/2) ≈ 1.6·10^16`, where the value leaves the interval by
-less than `(π - PI())/(2 PI())·(hi - lo)` (`interval_back_in_domain_tan_general`); the witness is
-`interval_tan_lib_leaves_domain`. -/
+statement: coordinates beyond `tan (PI()/2) ≈ 1.6·10^16`, where the value sits *on* a bound
+(`interval_tan_lib_reaches_bound`; the closed interval always holds,
+`interval_back_in_closed_domain`). -/
 theorem interval_back_in_domain_tan_lib_partial (t : IT ℝ) (hh : t.hyper = false) (hb : t.lo < t.hi)
     (hg : |t.x / t.scale| ≤ 10 ^ 15) :
     t.lo < IT.getOriginal libPI t ∧ IT.getOriginal libPI t < t.hi := by
+  have ha := arctan_abs_lt_libPI_half hg
   have hgo : IT.getOriginal libPI t = IT.gt libPI t.scale t.lo t.hi t.x := by
-    have := IT.getOriginal_at libPI t t.x; simpa [hh] using this
+    have := IT.getOriginal_at_tan libPI t hh hb libPI_pos t.x ha; simpa using this
   rw [hgo]
-  exact IT.gt_mem_of_angle libPI _ _ _ _ libPI_pos hb (arctan_abs_lt_libPI_half hg)
+  exact IT.gt_mem_of_angle libPI _ _ _ _ libPI_pos hb ha
 
-/-- the guard above cannot be dropped: for a coordinate far enough the value is below the lower
-bound (in exact arithmetic; by less than 2·10⁻¹⁷ interval widths) -/
-theorem interval_tan_lib_leaves_domain (t : IT ℝ) (hh : t.hyper = false) (hs : 0 < t.scale)
-    (hb : t.lo < t.hi) : ∃ x, IT.getOriginal libPI (t.at x) < t.lo := by
+/-- the guard above cannot be dropped: for a coordinate far enough the value is the lower bound
+itself (in exact arithmetic), which an open constraint rejects -/
+theorem interval_tan_lib_reaches_bound (t : IT ℝ) (hh : t.hyper = false) (hs : 0 < t.scale)
+    (hb : t.lo < t.hi) : ∃ x, IT.getOriginal libPI (t.at x) = t.lo := by
   -- an angle θ with -π/2 < θ < -PI()/2
   have hlt := libPI_lt_pi
   have hpos := libPI_pos
@@ -396,42 +385,85 @@ theorem interval_tan_lib_leaves_domain (t : IT ℝ) (hh : t.hyper = false) (hs :
   have h2 : θ < -(libPI / 2) := by rw [hθ]; linarith
   refine ⟨t.scale * Real.tan θ, ?_⟩
   rw [IT.getOriginal_at]; simp only [hh, if_false, Bool.false_eq_true]
-  unfold IT.gt
-  rw [mul_div_cancel_left₀ _ hs.ne', Real.arctan_tan h1 (by linarith [Real.pi_pos])]
-  have hw : 0 < t.hi - t.lo := by linarith
-  have : (θ + libPI / 2) * (t.hi - t.lo) / libPI < 0 := by
-    apply div_neg_of_neg_of_pos _ hpos
-    exact mul_neg_of_neg_of_pos (by linarith) hw
-  linarith
+  have hraw : IT.gt libPI t.scale t.lo t.hi (t.scale * Real.tan θ) < t.lo := by
+    unfold IT.gt
+    rw [mul_div_cancel_left₀ _ hs.ne', Real.arctan_tan h1 (by linarith [Real.pi_pos])]
+    have hw : 0 < t.hi - t.lo := by linarith
+    have : (θ + libPI / 2) * (t.hi - t.lo) / libPI < 0 := by
+      apply div_neg_of_neg_of_pos _ hpos
+      exact mul_neg_of_neg_of_pos (by linarith) hw
+    linarith
+  unfold IT.clamp
+  rw [if_pos hraw, if_neg (not_lt.mpr hb.le)]
 
-/-! ## Interval transform: monotonicity and derivatives (both variants) -/
+/-! ## Interval transform: monotonicity and derivatives -/
 
-/-- the back-transformation is strictly increasing in the coordinate -/
-theorem interval_strict_mono (pi : ℝ) (t : IT ℝ) (hs : 0 < t.scale) (hb : t.lo < t.hi)
-    (hpi : t.hyper = false → 0 < pi) : StrictMono (fun x => IT.getOriginal pi (t.at x)) := by
-  have e : (fun x => IT.getOriginal pi (t.at x)) =
-      fun x => if t.hyper then IT.gh t.scale t.lo t.hi x else IT.gt pi t.scale t.lo t.hi x := by
-    funext x; exact IT.getOriginal_at pi t x
-  rw [e]
-  cases hh : t.hyper
-  · simpa using IT.gt_strictMono pi t.scale t.lo t.hi (hpi hh) hs hb
-  · simpa using IT.gh_strictMono t.scale t.lo t.hi hs hb
+/-- hyperbolic variant: strictly increasing in the coordinate -/
+theorem interval_strict_mono_hyper (pi : ℝ) (t : IT ℝ) (hh : t.hyper = true) (hs : 0 < t.scale)
+    (hb : t.lo < t.hi) : StrictMono (fun x => IT.getOriginal pi (t.at x)) := by
+  have e : (fun x => IT.getOriginal pi (t.at x)) = IT.gh t.scale t.lo t.hi := by
+    funext x; exact IT.getOriginal_at_hyper pi t hh hb x
+  rw [e]; exact IT.gh_strictMono _ _ _ hs hb
 
-/-- `getFirstOrderDerivative` is the derivative of the back-transformation -/
-theorem interval_d1_is_derivative (pi : ℝ) (t : IT ℝ) (_hs : t.scale ≠ 0)
-    (_hpi : t.hyper = false → pi ≠ 0) :
-    HasDerivAt (fun x => IT.getOriginal pi (t.at x)) (IT.d1 pi t) t.x := by
-  have e : (fun x => IT.getOriginal pi (t.at x)) =
-      fun x => if t.hyper then IT.gh t.scale t.lo t.hi x else IT.gt pi t.scale t.lo t.hi x := by
-    funext x; exact IT.getOriginal_at pi t x
+/-- tangent variant with a constant `≥ π` (in particular the exact π): strictly increasing -/
+theorem interval_strict_mono_tan (pi : ℝ) (hpi : Real.pi ≤ pi) (t : IT ℝ) (hh : t.hyper = false)
+    (hs : 0 < t.scale) (hb : t.lo < t.hi) : StrictMono (fun x => IT.getOriginal pi (t.at x)) := by
+  have hp : 0 < pi := lt_of_lt_of_le Real.pi_pos hpi
+  have e : (fun x => IT.getOriginal pi (t.at x)) = IT.gt pi t.scale t.lo t.hi := by
+    funext x; exact IT.getOriginal_at_tan pi t hh hb hp x (IT.arctan_abs_lt_of_pi_le hpi _)
+  rw [e]; exact IT.gt_strictMono _ _ _ _ hp hs hb
+
+/-- tangent variant with the library's constant: strictly increasing on `|x / scale| ≤ 10^15`
+(beyond `tan (PI()/2)` the clamp makes it constant, so the global statement is false) -/
+theorem interval_strict_mono_tan_lib_partial (t : IT ℝ) (hh : t.hyper = false) (hs : 0 < t.scale)
+    (hb : t.lo < t.hi) :
+    StrictMonoOn (fun x => IT.getOriginal libPI (t.at x)) {x | |x / t.scale| ≤ 10 ^ 15} := by
+  intro x hx y hy hxy
+  have hx : |x / t.scale| ≤ 10 ^ 15 := hx
+  have hy : |y / t.scale| ≤ 10 ^ 15 := hy
+  show IT.getOriginal libPI (t.at x) < IT.getOriginal libPI (t.at y)
+  rw [IT.getOriginal_at_tan libPI t hh hb libPI_pos x (arctan_abs_lt_libPI_half hx),
+    IT.getOriginal_at_tan libPI t hh hb libPI_pos y (arctan_abs_lt_libPI_half hy)]
+  exact IT.gt_strictMono _ _ _ _ libPI_pos hs hb hxy
+
+/-- hyperbolic variant: `getFirstOrderDerivative` is the derivative of the back-transformation -/
+theorem interval_d1_is_derivative_hyper (pi : ℝ) (t : IT ℝ) (hh : t.hyper = true) (_hs : t.scale ≠ 0)
+    (hb : t.lo < t.hi) : HasDerivAt (fun x => IT.getOriginal pi (t.at x)) (IT.d1 pi t) t.x := by
+  have e : (fun x => IT.getOriginal pi (t.at x)) = IT.gh t.scale t.lo t.hi := by
+    funext x; exact IT.getOriginal_at_hyper pi t hh hb x
   have e1 := IT.d1_at pi t t.x
   rw [IT.at_self] at e1
-  rw [e, e1]
-  cases hh : t.hyper
-  · simpa [IT.gt'] using IT.gt_hasDerivAt pi t.scale t.lo t.hi t.x
-  · simpa [IT.gh'] using IT.gh_hasDerivAt t.scale t.lo t.hi t.x
+  rw [e, e1]; simp only [hh, if_true]
+  exact IT.gh_hasDerivAt t.scale t.lo t.hi t.x
 
-/-- `getSecondOrderDerivative` is the derivative of `getFirstOrderDerivative` -/
+/-- tangent variant with a constant `≥ π` -/
+theorem interval_d1_is_derivative_tan (pi : ℝ) (hpi : Real.pi ≤ pi) (t : IT ℝ) (hh : t.hyper = false)
+    (_hs : t.scale ≠ 0) (hb : t.lo < t.hi) :
+    HasDerivAt (fun x => IT.getOriginal pi (t.at x)) (IT.d1 pi t) t.x := by
+  have hp : 0 < pi := lt_of_lt_of_le Real.pi_pos hpi
+  have e : (fun x => IT.getOriginal pi (t.at x)) = IT.gt pi t.scale t.lo t.hi := by
+    funext x; exact IT.getOriginal_at_tan pi t hh hb hp x (IT.arctan_abs_lt_of_pi_le hpi _)
+  have e1 := IT.d1_at pi t t.x
+  rw [IT.at_self] at e1
+  rw [e, e1]; simp only [hh, if_false, Bool.false_eq_true]
+  exact IT.gt_hasDerivAt pi t.scale t.lo t.hi t.x
+
+/-- tangent variant with the library's constant, for coordinates with `|x / scale| < 10^15` -/
+theorem interval_d1_is_derivative_tan_lib_partial (t : IT ℝ) (hh : t.hyper = false)
+    (_hs : t.scale ≠ 0) (hb : t.lo < t.hi) (hg : |t.x / t.scale| < 10 ^ 15) :
+    HasDerivAt (fun x => IT.getOriginal libPI (t.at x)) (IT.d1 libPI t) t.x := by
+  have e1 := IT.d1_at libPI t t.x
+  rw [IT.at_self] at e1
+  rw [e1]; simp only [hh, if_false, Bool.false_eq_true]
+  refine (IT.gt_hasDerivAt libPI t.scale t.lo t.hi t.x).congr_of_eventuallyEq ?_
+  -- on the open set `|x / scale| < 10^15` the clamp is the identity
+  have hopen : IsOpen {x : ℝ | |x / t.scale| < 10 ^ 15} :=
+    isOpen_lt (continuous_abs.comp (continuous_id.div_const t.scale)) continuous_const
+  filter_upwards [hopen.mem_nhds hg] with x hx
+  exact IT.getOriginal_at_tan libPI t hh hb libPI_pos x (arctan_abs_lt_libPI_half (le_of_lt hx))
+
+/-- `getSecondOrderDerivative` is the derivative of `getFirstOrderDerivative` (both variants, any
+constant) -/
 theorem interval_d2_is_derivative (pi : ℝ) (t : IT ℝ) (_hs : t.scale ≠ 0)
     (_hpi : t.hyper = false → pi ≠ 0) :
     HasDerivAt (fun x => IT.d1 pi (t.at x)) (IT.d2 pi t) t.x := by
